@@ -317,6 +317,7 @@ class Env(object):
         self._patches = []
         self.closed = False
         self.dirty = False
+        self.poisoned = False
         self.served = 0
         try:
             os.makedirs(self.root)
@@ -563,11 +564,21 @@ class Env(object):
         obs = sandbox.Observer(write_roots=roots, read_roots=self.static_roots, read_files=self.static_files,
                                confine=self.top, resolved=True)
         b0, u0 = self.backend_calls, self.upstream.calls
+        import threading
+        before = set(threading.enumerate())
         with obs:
             status, headers, body, stderr = call_wsgi(app, path, qs, case.get('headers'))
+            # MapProxy's thread pools may still be finishing tasks when a request ends with an exception
+            # (ThreadPool.shutdown(force=True) lets the workers complete their current task): stay armed
+            # until they are done so that their file accesses are attributed to this request, not the next
+            stragglers = [t for t in threading.enumerate() if t not in before and t is not threading.current_thread()]
+            for t in stragglers:
+                t.join(30)
+        self.stuck_threads = sum(1 for t in stragglers if t.is_alive())
         if obs.hook_errors:
             raise core.HarnessError('sandbox hook failed:\n' + obs.hook_errors[0])
         return {'status': status, 'headers': headers, 'body': body, 'obs': obs, 'stderr': stderr,
+                'stragglers': len(stragglers), 'stuck_threads': self.stuck_threads,
                 'backend_calls': self.backend_calls - b0, 'upstream_calls': self.upstream.calls - u0,
                 'path': path, 'qs': qs}
 
@@ -787,6 +798,14 @@ def run_case(env, case, st_, open_sigs=()):
     c['layers'] = layers
     res = env.serve(c)
     res['layers'] = layers
+    if res['stuck_threads']:
+        # a worker thread of this request is still alive after 30 s: later events could not be attributed;
+        # not judged, and the deployment is replaced before the next case
+        st_.inconclusive['worker-thread-alive-30s-after-response'] += 1
+        env.poisoned = True
+        return None
+    if res['stragglers']:
+        st_.notes['requests-with-worker-threads-outliving-the-response'] += 1
     v = judge(env, case, res, st_)
     obs = res['obs']
     classes = ['svc:' + pr['service'], 'status:%dxx' % (res['status'] // 100)]
@@ -980,7 +999,8 @@ def _strategies():
             if version == '1.3.0':
                 bbox = (bbox[1], bbox[0], bbox[3], bbox[2])
         fmt = draw(slot('format', ['image/png', 'image/png', 'image/jpeg'], ['image/../png', 'png', 'image/png/../../x', '../bait'], 3, used))
-        pairs = [('SERVICE', 'WMS'), ('VERSION', version), ('REQUEST', 'GetMap' if version != '1.0.0' else 'map'),
+        pairs = [('SERVICE', 'WMS'), ('VERSION' if version != '1.0.0' else 'WMTVER', version),
+                 ('REQUEST', 'GetMap' if version != '1.0.0' else 'map'),
                  ('LAYERS', layer), ('STYLES', ''), ('CRS' if version == '1.3.0' else 'SRS', srs),
                  ('BBOX', ','.join(repr(float(v)) for v in bbox)), ('WIDTH', str(size[0])), ('HEIGHT', str(size[1])),
                  ('FORMAT', fmt if version != '1.0.0' else fmt.replace('image/', ''))]
@@ -1140,6 +1160,9 @@ def _strategies():
 def _check_fn(env_holder, open_sigs):
     def check(case, st_):
         env = env_holder[0]
+        if env is not None and env.poisoned:
+            env.close()
+            env = None
         if env is None:
             env = env_holder[0] = Env()
         if env.dirty:
@@ -1231,7 +1254,7 @@ def replay(case, stats):
 # coverage-guided campaign on raw (path, query) bytes (thorough tier)
 
 FUZZ_WORKERS = 16
-FUZZ_RUNS = 30000          # executions per worker
+FUZZ_RUNS = 100000         # executions per worker
 
 
 def _fuzz_seed_inputs():
@@ -1315,6 +1338,9 @@ def fuzz_worker(outdir, index, seed, runs):
 
     def one(data):
         try:
+            if state['env'] is not None and state['env'].poisoned:
+                state['env'].close()
+                state['env'] = None
             if state['env'] is None:
                 state['env'] = Env()
             env = state['env']
